@@ -4,10 +4,13 @@ CFG = {
                   "handlers of any duration that may re-enter) and the gathering-cycle state machine (GatherCandidates / "
                   "cycle thread / gatherers / Restart / Close as atomic tasks, any interleaving). One inductive invariant per "
                   "model, proved for every transition; the property clauses (in order, exactly once, one at a time, "
-                  "graceful close, one nil last, every candidate carries its cycle's ufrag, a cancelled cycle publishes nothing) are corollaries for ALL reachable "
+                  "graceful close, one nil last, every candidate carries its cycle's ufrag, a cancelled cycle publishes nothing and leaves no "
+                  "local candidate whichever ready case Run's select takes) are corollaries for ALL reachable "
                   "states and ALL continuations. Tie to the code: recorded concurrent histories of the real "
                   "handlerNotifier / Agent (testing/synctest and free-running goroutines) must be behaviours of the model "
-                  "and must pass an independent spec monitor.",
+                  "and must pass an independent spec monitor; the window of addCandidate between its context check and the hand-off "
+                  "of its task is FORCED (a context whose first Err() call restarts / closes the agent) and repeated until both "
+                  "outcomes of the select have been seen, and there the model must predict the observation exactly.",
     "level_note": "Trusted: Lean kernel (propext/Classical.choice/Quot.sound); the reading of agent_handlers.go, gather.go, "
                   "agent.go into the models (statement-for-statement, line numbers in the model files); sync.Mutex critical "
                   "sections are atomic, sync.WaitGroup.Wait returns iff the counter is 0, closed channel = flag; tasks of the "
@@ -17,14 +20,22 @@ CFG = {
     "components": [
         {"component": "notifier", "trivial_regex": r"^(bad-op.*)$", "timeout_quick": 120, "timeout_thorough": 900},
         {"component": "gathercycle", "trivial_regex": r"^(bad-op.*)$", "timeout_quick": 120, "timeout_thorough": 900},
+        {"component": "gatherforce", "trivial_regex": r"^(bad-op.*)$", "timeout_quick": 120, "timeout_thorough": 900},
     ],
     "rule": "notifier: one line per recorded stream history (quick: 6000 synctest + 1200 free-running + 1500 real-agent scenarios, "
             "1-3 stream histories each; thorough: 250000 + 15000 + 50000); gathercycle: one line per agent history (quick 6000, "
-            "thorough 250000 scenarios of GatherCandidates/Restart/poll/Close at random virtual times over 0-3 fake interfaces). "
+            "thorough 250000 scenarios of GatherCandidates/Restart/poll/Close at random virtual times over 0-3 fake interfaces); "
+            "gatherforce: one line per script (16 corpus + quick 150 / thorough 4000 random scripts of GatherCandidates / Restart / Close / "
+            "release of the parked real gatherer / scripted gatherers whose first context check restarts or closes the agent or starts a "
+            "further gatherer), each executed 40-48 times on a fresh real agent: the output is the set of distinct observations (announced "
+            "candidates with ufrag and generation, addCandidate results, local candidate list and open sockets after every step) and must "
+            "equal the model's single prediction; a wrong hand-off is missed with probability 2^-40 per line that forces the window. "
             "Distinct = distinct (history, output) lines; every line is non-trivial (a history with at least one event).",
     "translated": [],
     "trusted_base": ["sync.Mutex / sync.WaitGroup / channel-close semantics as modelled (atomic critical sections)",
-                     "testing/synctest of go1.26.8 (virtual clock, bubble leak detection); recorder stamps from one atomic counter"],
+                     "testing/synctest of go1.26.8 (virtual clock, bubble leak detection); recorder stamps from one atomic counter",
+                     "gatherforce: Go's select picks uniformly among ready cases; synctest.Wait returns only when the agent loop is parked in its "
+                     "receive; the scripted gatherer's context is cancelled with the cycle's own (the stored cancel func is wrapped)"],
     "assumptions": ["GracefulClose is not called synchronously from inside a callback (documented as unsafe; it deadlocks, which the "
                     "model shows as a closer that never returns)",
                     "gather-once policy; host-only gathering in the correspondence runs"],
